@@ -260,7 +260,9 @@ def run_case(case, ctx):
                 # proportional to the un-normalised gradient
                 ratio = gn[nz] / exp[nz]
                 if whole:
-                    direction_ok = np.allclose(ratio, ratio.flat[0], rtol=1e-6)
+                    # the expectation carries the relative error of each edge's distance (float32-sized for
+                    # single-precision sources, large for very short edges): the same tolerance as gradient_value
+                    direction_ok = np.allclose(ratio, ratio.flat[0], rtol=max(1e-6, 4 * float(np.max(np.broadcast_to(rel, exp.shape)[nz]))))
             if not (whole or per_slice):
                 bad("gradient_normalised", "not-unit-norm", f"norm {np.linalg.norm(gn)!r}")
             elif not direction_ok:
